@@ -381,6 +381,7 @@ func RunProperty(cfg *Config, spec *PropSpec, known []KnownFinding) int {
 		for _, p := range l.prog.AllPackages() {
 			if strings.HasPrefix(p.Pkg.Path(), modulePath) {
 				ex.InitPkgs[p.Pkg.Path()] = true
+				ex.PerPathInit[p.Pkg.Path()] = true
 				ex.HarnessPkgs[p.Pkg.Path()] = true
 			}
 		}
